@@ -624,10 +624,11 @@ def gen_calldep_scripts(tier, seed, variant):
             blk = gen_table.make_script(rng, f"x{seed}_{i}")
             lines = blk.split("\n")
             k = next(j for j, l in enumerate(lines) if not (l.startswith("===") or l.startswith("kind") or l.startswith("hash")))
-            lines.insert(k, rng.choice(["hashrule calldep", "eqrule calldep", "hashrule calldep\neqrule calldep"]))
+            lines.insert(k, rng.choice(["hashrule calldep", "hashrule calldep_near", "hashrule calldep_near", "eqrule calldep", "hashrule calldep\neqrule calldep", "hashrule calldep_near\neqrule calldep"]))
             out.append("\n".join(lines))
         else:
-            out.append(gen_map.make_script(rng, f"x{seed}_{i}", calldep=rng.choice(["hash", "eq", "both"])))
+            out.append(gen_map.make_script(rng, f"x{seed}_{i}", calldep=rng.choice(["hash", "hash_near", "hash_near", "eq", "both", "both_near"]), many=(i % 2 == 0),
+                                           nkeys=rng.choice([4, 6, 12, 24, 40])))
     return "".join(out)
 
 def gen_table_scripts(tier, seed, variant):
@@ -697,7 +698,7 @@ def check_c05(run):
         run, gen_calldep_scripts,
         relevant=lambda f: f.kind == "CRASH" or (f.kind == "B-FAIL" and "SafeWF" in f.text) or (f.kind == "H-FAIL") or (f.kind == "A-FAIL" and "len()=" in f.text),
         levels="B",
-        rule="HashMap and HashTable histories under inconsistent Hash (a fresh pseudo-random hash on every call), inconsistent Eq (a pseudo-random answer on every call), or both: every operation must return (harness timeout = non-termination finding), every dumped state must satisfy SafeWF (in particular len() = number of stored elements), the registry must show every element dropped exactly once, the allocator ledger must balance; lookup results are not judged")
+        rule="HashMap and HashTable histories (incl. get_many_mut with repeated keys: the addresses of the returned &mut references are compared) under inconsistent Hash (a fresh pseudo-random hash on every call; or a fresh hash with a constant tag and one of 8 neighbouring positions, so that lookups under a different hash still reach stored elements), inconsistent Eq (a pseudo-random answer on every call), or both: every operation must return (harness timeout = non-termination finding), every dumped state must satisfy SafeWF (in particular len() = number of stored elements), the registry must show every element dropped exactly once, the allocator ledger must balance; lookup results are not judged")
 
 def check_c06(run):
     return script_property(
